@@ -3,6 +3,7 @@ CONSTANTS
   Cmds = {"version", "getPubKey", "sign_v1"}
   MaxConnFail = 2
   NInit = 4
+  BTimeouts = {0, 2, 3, 4}
   DevErrAbs = 2
 CHECK_DEADLOCK FALSE
 INVARIANT NoViolation
